@@ -1323,7 +1323,7 @@ func more2PolicyDecidesAlone(p *Program, r *Report) {
 			}
 		}
 		for _, s := range errReturnSites(f) {
-			if !reach[s.ret.Block()] {
+			if !s.reachedIn(reach) {
 				continue
 			}
 			if s.pred != nil && !reach[s.pred] && s.pred != e.from {
